@@ -147,12 +147,29 @@ def _margins(case, mdl, tr):
             margin = min(margin, float(np.min(np.abs(series[1:] - thr))) / scale if len(series) > 1 else 1.0)
     if mdl.self_locking or mdl.locking_ambiguous:
         margin = min(margin, C12._near_threshold({'control': []}, mdl, tr, dt_si))
+        w_init = U.si('AngularSpeed', *case['init']['speed'])
+        if w_init != 0:                  # the lock decision of instant 0 is taken on the sign of the initial speed
+            margin = min(margin, abs(mdl.cum_ratio(0) * w_init) / mdl.w0)
     if mdl.i0 is not None:
         pwm = tr.get(0, 'pwm')
         dz = mdl.i0 / mdl.imax
         if dz > 0:
             margin = min(margin, float(np.min(np.abs(np.abs(pwm) - dz))) / dz)
     return margin
+
+
+def _natural_scale(mdl, key, case):
+    """typical magnitude (SI) of a recorded variable of element i in this model"""
+    if key == 't':
+        return 1.0 / mdl.k
+    i, var = key.split(':', 1)
+    r = mdl.cum_ratio(int(i))                      # speed of element i / speed of the last element
+    horizon = G.horizon(case) or 1.0 / mdl.k
+    speed = mdl.noload_out * r
+    torque = mdl.Tmax / max(r / mdl.cum_ratio(0), 1e-300)       # stall torque referred to element i (no losses)
+    return {'angular position': speed * horizon, 'angular speed': speed, 'angular acceleration': speed * mdl.k,
+            'torque': torque, 'driving torque': torque, 'load torque': torque, 'pwm': 1.0,
+            'electric current': mdl.imax or 1.0}.get(var, 0.0)
 
 
 def check(case) -> Result:
@@ -203,6 +220,9 @@ def check(case) -> Result:
         if len(x) == 0:
             continue
         scale = max(float(np.max(np.abs(x))), float(np.max(np.abs(y))), 1e-300)
+        # a series that is zero up to rounding (balanced torques, a drive at rest) has no scale of its own: measure
+        # it against the natural magnitude of its variable in this model
+        scale = max(scale, 1e-6 * _natural_scale(mdl, key, base))
         bad = np.nonzero(~(np.abs(x - y) <= 1e-7 * scale))[0]
         if len(bad):
             k = int(bad[0])
